@@ -9,6 +9,7 @@ Definition conc_tag (c : conc) : N :=
   | CInt => 0 | CStr => 1 | CFloat => 2 | CBool => 3 | CBytes => 4 | CTuple => 5
   | CFrozenset => 6 | CList => 7 | CDict => 8 | CSet => 9 | CNoZero => 10
   | COrdDict => 11 | CDefDict => 12 | CCounter => 13 | CMyList => 14
+  | CMySet => 15 | CUserObj => 16 | CDeque => 17
   end%N.
 Definition conc_eqb (a b : conc) : bool := (conc_tag a =? conc_tag b)%N.
 
